@@ -2,8 +2,10 @@ package main
 
 import (
 	"encoding/json"
+	"fmt"
 	"math/rand"
 
+	"tags.cncf.io/container-device-interface/pkg/cdi"
 	specs "tags.cncf.io/container-device-interface/specs-go"
 )
 
@@ -269,6 +271,18 @@ func (versionStream) Execute(c Case) {
 	case "minver":
 		v, _ := specs.MinimumRequiredVersion(s)
 		obs["v"] = hx(v)
+		// the deprecated wrapper of package cdi and a second evaluation (Go map iteration order) must agree
+		aux := []any{}
+		if w, err := cdi.MinimumRequiredVersion(s); err != nil || w != v {
+			aux = append(aux, fmt.Sprintf("cdi.MinimumRequiredVersion = %q, %v; specs.MinimumRequiredVersion = %q", w, err, v))
+		}
+		for i := 0; i < 4; i++ {
+			if w, _ := specs.MinimumRequiredVersion(s); w != v {
+				aux = append(aux, fmt.Sprintf("MinimumRequiredVersion is not repeatable: %q then %q", v, w))
+				break
+			}
+		}
+		obs["aux"] = aux
 	case "validver":
 		obs["ok"] = specs.ValidateVersion(s) == nil
 	}
